@@ -12,8 +12,8 @@ import PyGqlModel.Lemmas.LexChars
 namespace PyGql.PrintLex
 open PyGql PyGql.Lex PyGql.Spec PyGql.PrintString
 
-/-- the characters that follow a lexeme in printed output: LF, space, `! $ & ( ) , : = @ [ ] { | }` -/
-def isDelim (c : Nat) : Bool := [10, 32, 33, 36, 38, 40, 41, 44, 58, 61, 64, 91, 93, 123, 124, 125].contains c
+/-- the characters that follow a lexeme in printed output: TAB, LF, space, `! $ & ( ) , : = @ [ ] { | }` -/
+def isDelim (c : Nat) : Bool := [9, 10, 32, 33, 36, 38, 40, 41, 44, 58, 61, 64, 91, 93, 123, 124, 125].contains c
 
 /-- the rest of the text cannot extend the lexeme before it: it is empty or starts with a delimiter -/
 def Safe (r : Text) : Prop := ∀ c t, r = c :: t → isDelim c = true
@@ -109,7 +109,7 @@ theorem lexesTo_colon {r cs} (h : LexesTo r cs) : LexesTo (58 :: r) ((.colon, []
 theorem delim_facts (c : Nat) (h : isDelim c = true) :
     isNameChar c = false ∧ isDigit c = false ∧ c ≠ 46 ∧ c ≠ 34 ∧ isNameStart c = false ∧ c ≠ 101 ∧ c ≠ 69 := by
   simp [isDelim] at h
-  rcases h with h | h | h | h | h | h | h | h | h | h | h | h | h | h | h | h <;> subst h <;> decide
+  rcases h with h | h | h | h | h | h | h | h | h | h | h | h | h | h | h | h | h <;> subst h <;> decide
 
 theorem span_append (p : Nat → Bool) (w r : Text) (hw : ∀ x ∈ w, p x = true)
     (hr : ∀ c t, r = c :: t → p c = false) :
